@@ -55,7 +55,7 @@ fn growth_history(pagesize: u64, strict: bool, populate: bool, value_kib: u32, v
             t.push(TxSpec { kind: TxKind::Reopen, ops: vec![] });
         }
     }
-    HistoryCase { cfg: Cfg { pagesize, num_pages: 4, strict, populate }, fresh_handles: false, txs: t }
+    HistoryCase { cfg: Cfg { pagesize, num_pages: 4, strict, populate }, fresh_handles: false, txs: t, dance: 0 }
 }
 
 pub fn run_case(case: &C16Case, path: &std::path::Path) -> (Result<(), Failure>, CaseStats, u64) {
